@@ -668,8 +668,8 @@ func saveScriptLint(r *Report) {
 	argvRe := regexp.MustCompile(`ARGV\[(\d+)\]`)
 	for _, sc := range []struct {
 		name, read, inc string
-		writes           []string
-		maxArgv          int // 0: open-ended (unpack)
+		writes          []string
+		maxArgv         int // 0: open-ended (unpack)
 	}{
 		{"hashSaveScript", `redis.call('HGET',KEYS[1],ARGV[1])`, `ARGV[2]=tostring(tonumber(ARGV[2])+1)`, []string{"'HSET'", "'PEXPIREAT'", "'HDEL'", "'DEL'"}, 0},
 		{"jsonSaveScript", `redis.call('JSON.GET',KEYS[1],ARGV[1])`, `redis.call('JSON.NUMINCRBY',KEYS[1],ARGV[1],1)`, []string{"'JSON.SET'", "'JSON.NUMINCRBY'", "'PEXPIREAT'", "'DEL'"}, 4},
@@ -1256,46 +1256,72 @@ func hashCodecAgreementRule(r *Report) {
 	}
 	r.Anchor("R40e", "FromHash: field lookup", nLook == 1)
 	nDec := 0
-	for _, s := range CallSites(from, "reflect.(Value).Set") {
-		nDec++
-		c := s.Instr.(*ssa.Call)
-		okT := entityField(c.Call.Args[0])
-		okV := false
-		var derr ssa.Value
-		if ex, ok := c.Call.Args[1].(*ssa.Extract); ok && ex.Index == 0 {
-			if dc, ok := ex.Tuple.(*ssa.Call); ok && IsFieldLoad(dc.Call.Value, omPkg+".converter", "StringToValue") {
-				okV = Guarded(s.Block, halfNil("StringToValue", false))
-				derr = extractOf(dc, 1)
+	// FromHash itself and an unexported decoding helper it delegates to; the helper's error must be
+	// returned by FromHash
+	decodeFns := []*ssa.Function{from}
+	for _, cs := range Sites(from, func(in ssa.Instruction) bool { _, ok := in.(*ssa.Call); return ok }) {
+		c := cs.Instr.(*ssa.Call)
+		h := c.Call.StaticCallee()
+		if h == nil || h.Blocks == nil || h.Pkg != from.Pkg || isExportedName(h.Name()) || h == from {
+			continue
+		}
+		if len(CallSites(h, "reflect.(Value).Set"))+len(CallSites(h, "encoding/json.Unmarshal")) == 0 {
+			continue
+		}
+		decodeFns = append(decodeFns, h)
+		handedBack := false
+		for _, b := range from.Blocks {
+			if ret, ok := b.Instrs[len(b.Instrs)-1].(*ssa.Return); ok && len(ret.Results) == 1 && ret.Results[0] == ssa.Value(c) {
+				handedBack = Guarded(b, func(g Guard) bool {
+					x, op, y, ok := CmpGuard(g)
+					return ok && x == ssa.Value(c) && op == token.NEQ && IsNilConst(y)
+				})
 			}
 		}
-		okE := derr != nil && Guarded(s.Block, func(g Guard) bool {
-			x, op, y, ok := CmpGuard(g)
-			return ok && x == derr && op == token.EQL && IsNilConst(y)
-		})
-		r.ObSite("R40e", s, "decodes-into-own-field", okT && okV && okE, "the converter's decoding of the looked-up text is set into entity.Field(entry.idx), only when decoding succeeded")
-		if derr != nil {
+		r.ObSite("R40e", cs, "decode-error-returned", handedBack, "the error of the decoding helper is returned to the caller of Fetch")
+	}
+	for _, from := range decodeFns {
+		for _, s := range CallSites(from, "reflect.(Value).Set") {
+			nDec++
+			c := s.Instr.(*ssa.Call)
+			okT := entityField(c.Call.Args[0])
+			okV := false
+			var derr ssa.Value
+			if ex, ok := c.Call.Args[1].(*ssa.Extract); ok && ex.Index == 0 {
+				if dc, ok := ex.Tuple.(*ssa.Call); ok && IsFieldLoad(dc.Call.Value, omPkg+".converter", "StringToValue") {
+					okV = Guarded(s.Block, halfNil("StringToValue", false))
+					derr = extractOf(dc, 1)
+				}
+			}
+			okE := derr != nil && Guarded(s.Block, func(g Guard) bool {
+				x, op, y, ok := CmpGuard(g)
+				return ok && x == derr && op == token.EQL && IsNilConst(y)
+			})
+			r.ObSite("R40e", s, "decodes-into-own-field", okT && okV && okE, "the converter's decoding of the looked-up text is set into entity.Field(entry.idx), only when decoding succeeded")
+			if derr != nil {
+				returned := false
+				for _, b := range from.Blocks {
+					if ret, ok := b.Instrs[len(b.Instrs)-1].(*ssa.Return); ok && len(ret.Results) == 1 && ret.Results[0] == derr {
+						returned = true
+					}
+				}
+				r.ObSite("R40e", s, "decode-error-returned", returned, "a decoding error is returned to the caller of Fetch")
+			}
+		}
+		for _, s := range CallSites(from, "encoding/json.Unmarshal") {
+			nDec++
+			c := s.Instr.(*ssa.Call)
+			d := DescDeep(c.Call.Args[1])
+			okT := strings.Contains(d, ".Field(") && strings.Contains(d, ".idx") && strings.Contains(d, ".Addr(")
+			okG := Guarded(s.Block, halfNil("StringToValue", true))
 			returned := false
 			for _, b := range from.Blocks {
-				if ret, ok := b.Instrs[len(b.Instrs)-1].(*ssa.Return); ok && len(ret.Results) == 1 && ret.Results[0] == derr {
+				if ret, ok := b.Instrs[len(b.Instrs)-1].(*ssa.Return); ok && len(ret.Results) == 1 && ret.Results[0] == ssa.Value(c) {
 					returned = true
 				}
 			}
-			r.ObSite("R40e", s, "decode-error-returned", returned, "a decoding error is returned to the caller of Fetch")
+			r.ObSite("R40e", s, "json-decodes-into-own-field", okT && okG && returned, "entries without a converter are JSON-decoded into the address of entity.Field(entry.idx) and the error is returned")
 		}
-	}
-	for _, s := range CallSites(from, "encoding/json.Unmarshal") {
-		nDec++
-		c := s.Instr.(*ssa.Call)
-		d := DescDeep(c.Call.Args[1])
-		okT := strings.Contains(d, ".Field(") && strings.Contains(d, ".idx") && strings.Contains(d, ".Addr(")
-		okG := Guarded(s.Block, halfNil("StringToValue", true))
-		returned := false
-		for _, b := range from.Blocks {
-			if ret, ok := b.Instrs[len(b.Instrs)-1].(*ssa.Return); ok && len(ret.Results) == 1 && ret.Results[0] == ssa.Value(c) {
-				returned = true
-			}
-		}
-		r.ObSite("R40e", s, "json-decodes-into-own-field", okT && okG && returned, "entries without a converter are JSON-decoded into the address of entity.Field(entry.idx) and the error is returned")
 	}
 	r.Anchor("R40e", "FromHash: converter and JSON decoding", nDec == 2)
 }
